@@ -43,8 +43,9 @@ class W(str, CombinatorialObject):
 # the class
 # --------------------------------------------------------------------------
 class WC(CombinatorialClass):
-    def __init__(self, alphabet, prefix, patterns, just_prefix=False, stats=(), pool=0):
+    def __init__(self, alphabet, prefix, patterns, just_prefix=False, stats=(), pool=0, strict=False):
         self.alphabet = tuple(sorted(set(alphabet)))
+        self.strict = bool(strict) and not just_prefix
         self.prefix = W(prefix)
         self.patterns = tuple(sorted(set(map(W, patterns))))
         self.just_prefix = bool(just_prefix)
@@ -56,7 +57,7 @@ class WC(CombinatorialClass):
             raise ValueError("patterns not over alphabet")
         if len(self.stats) > len(POOLS[0]):
             raise ValueError("too many statistics")
-        self._hash = hash((self.alphabet, self.prefix, self.patterns, self.just_prefix, self.stats, self.pool))
+        self._hash = hash((self.alphabet, self.prefix, self.patterns, self.just_prefix, self.stats, self.pool, self.strict))
         super().__init__()
 
     # -- construction helpers --------------------------------------------
@@ -68,6 +69,7 @@ class WC(CombinatorialClass):
             just_prefix=self.just_prefix,
             stats=self.stats,
             pool=self.pool,
+            strict=self.strict,
         )
         d.update(kw)
         return type(self)(**d)
@@ -84,9 +86,18 @@ class WC(CombinatorialClass):
     def get_parameters(self, obj) -> Tuple[int, ...]:
         return tuple(self.stat_value(i, obj) for i in range(len(self.stats)))
 
+    def feasible_letters(self):
+        """Letters a such that prefix+a contains no pattern."""
+        return tuple(a for a in self.alphabet if not any(p in self.prefix + a for p in self.patterns))
+
     def get_minimum_value(self, parameter: str) -> int:
         i = self.extra_parameters.index(parameter)
-        return self.stat_value(i, self.prefix)
+        base = self.stat_value(i, self.prefix)
+        if self.strict:
+            nxt = self.feasible_letters()
+            if nxt:
+                base += min(1 if a in self.stats[i] else 0 for a in nxt)
+        return base
 
     def possible_parameters(self, n: int) -> Iterator[Dict[str, int]]:
         names = self.extra_parameters
@@ -99,13 +110,15 @@ class WC(CombinatorialClass):
 
     # -- the library's interface --------------------------------------------
     def is_empty(self) -> bool:
-        return any(p in self.prefix for p in self.patterns)
+        if any(p in self.prefix for p in self.patterns):
+            return True
+        return self.strict and not self.feasible_letters()
 
     def is_atom(self) -> bool:
         return self.just_prefix
 
     def minimum_size_of_object(self) -> int:
-        return len(self.prefix)
+        return len(self.prefix) + (1 if self.strict else 0)
 
     def objects_of_size(self, n, **parameters):
         want = None
@@ -117,7 +130,7 @@ class WC(CombinatorialClass):
                 if want is None or self.get_parameters(w) == want:
                     yield w
             return
-        if len(self.prefix) > n:
+        if len(self.prefix) + (1 if self.strict else 0) > n:
             return
         for letters in product(self.alphabet, repeat=n - len(self.prefix)):
             w = self.prefix + "".join(letters)
@@ -135,12 +148,13 @@ class WC(CombinatorialClass):
             just_prefix=int(self.just_prefix),
             stats=list(self.stats),
             pool=self.pool,
+            strict=int(self.strict),
         )
         return d
 
     @classmethod
     def from_dict(cls, d: dict) -> "WC":
-        return cls(d["alphabet"], d["prefix"], d["patterns"], bool(d["just_prefix"]), tuple(d["stats"]), d["pool"])
+        return cls(d["alphabet"], d["prefix"], d["patterns"], bool(d["just_prefix"]), tuple(d["stats"]), d["pool"], bool(d.get("strict", 0)))
 
     def __eq__(self, other) -> bool:
         if not isinstance(other, WC):
@@ -154,6 +168,7 @@ class WC(CombinatorialClass):
             and self.just_prefix == other.just_prefix
             and self.stats == other.stats
             and self.pool == other.pool
+            and self.strict == other.strict
         )
 
     def __hash__(self) -> int:
@@ -162,7 +177,7 @@ class WC(CombinatorialClass):
     def __repr__(self) -> str:
         return (
             f"{type(self).__name__}({''.join(self.alphabet)!r}, {str(self.prefix)!r}, {[str(p) for p in self.patterns]!r}, "
-            f"{self.just_prefix!r}, {self.stats!r}, {self.pool})"
+            f"{self.just_prefix!r}, {self.stats!r}, {self.pool}, {self.strict})"
         )
 
     def __str__(self) -> str:
@@ -172,15 +187,16 @@ class WC(CombinatorialClass):
             st = " tracking " + ", ".join(f"{n}=#{{{s}}}" for n, s in zip(self.extra_parameters, self.stats))
         if self.just_prefix:
             return f"The word {pre}{st}"
-        return f"Words over {{{','.join(self.alphabet)}}} avoiding {{{','.join(self.patterns)}}} with prefix {pre}{st}"
+        longer = " and longer than it" if self.strict else ""
+        return f"Words over {{{','.join(self.alphabet)}}} avoiding {{{','.join(self.patterns)}}} with prefix {pre}{longer}{st}"
 
     def key(self):
         """JSON-able description (used in replay files and messages)."""
-        return ["".join(self.alphabet), str(self.prefix), [str(p) for p in self.patterns], int(self.just_prefix), list(self.stats), self.pool]
+        return ["".join(self.alphabet), str(self.prefix), [str(p) for p in self.patterns], int(self.just_prefix), list(self.stats), self.pool, int(self.strict)]
 
     @classmethod
     def from_key(cls, k):
-        return cls(k[0], k[1], k[2], bool(k[3]), tuple(k[4]), k[5])
+        return cls(k[0], k[1], k[2], bool(k[3]), tuple(k[4]), k[5], bool(k[6]) if len(k) > 6 else False)
 
 
 class WCB(WC):
@@ -310,11 +326,13 @@ class Expand(_Settings, DisjointUnionStrategy):
         super().__init__(**kw)
 
     def _natural(self, c: WC):
-        atom = c.derive(just_prefix=True)
+        atom = c.derive(just_prefix=True, strict=False)
         letters = list(c.alphabet)
         if self.order & 2:
             letters.reverse()
-        rest = [c.derive(prefix=c.prefix + a) for a in letters]
+        rest = [c.derive(prefix=c.prefix + a, strict=False) for a in letters]
+        if c.strict:
+            return rest
         if self.order & 1:
             return rest + [atom]
         return [atom] + rest
@@ -358,6 +376,48 @@ class Expand(_Settings, DisjointUnionStrategy):
         return self.formal_step()
 
 
+class SplitAtom(_Settings, DisjointUnionStrategy):
+    """C(p) = {p} + C+(p), where C+(p) are the words of C(p) longer than p."""
+
+    SETTINGS = ("atom_last", "xf_atom", "xf_rest")
+
+    def __init__(self, atom_last=False, xf_atom="id", xf_rest="id", **kw):
+        self.atom_last = bool(atom_last)
+        self.xf_atom = xf_atom
+        self.xf_rest = xf_rest
+        kw.setdefault("possibly_empty", True)
+        super().__init__(**kw)
+
+    def _children_and_maps(self, c: WC):
+        if c.just_prefix or c.strict:
+            return None
+        atom = transform(c.derive(just_prefix=True), FLAGSETS[self.xf_atom])
+        rest = transform(c.derive(strict=True), FLAGSETS[self.xf_rest])
+        return [rest, atom] if self.atom_last else [atom, rest]
+
+    def decomposition_function(self, c: WC):
+        cm = self._children_and_maps(c)
+        return None if cm is None else tuple(ch for ch, _ in cm)
+
+    def extra_parameters(self, comb_class, children=None):
+        cm = self._children_and_maps(comb_class)
+        if cm is None:
+            raise StrategyDoesNotApply("Strategy does not apply")
+        return tuple(m for _, m in cm)
+
+    def formal_step(self) -> str:
+        return "either just the prefix or a longer word"
+
+    def forward_map(self, comb_class, obj, children=None):
+        is_atom = len(obj) == len(comb_class.prefix)
+        if self.atom_last:
+            return (None, W(obj)) if is_atom else (W(obj), None)
+        return (W(obj), None) if is_atom else (None, W(obj))
+
+    def __str__(self):
+        return self.formal_step()
+
+
 # --------------------------------------------------------------------------
 # Peel: C(sr) = {s} x C(r)
 # --------------------------------------------------------------------------
@@ -395,7 +455,7 @@ class Peel(_Settings, CartesianProductStrategy):
         safe = self._split(c)
         if safe is None:
             return None
-        atom = transform(c.derive(prefix=c.prefix[:safe], just_prefix=True), FLAGSETS[self.xf_atom])
+        atom = transform(c.derive(prefix=c.prefix[:safe], just_prefix=True, strict=False), FLAGSETS[self.xf_atom])
         rest = transform(c.derive(prefix=c.prefix[safe:]), FLAGSETS[self.xf_rest])
         return [rest, atom] if self.atom_last else [atom, rest]
 
@@ -717,7 +777,8 @@ def transfer_genf(c: WC):
         M[i, j] += wgt
     # F_i = 1 + sum_j M[i,j] F_j
     sol = (sympy.eye(n) - M).LUsolve(sympy.ones(n, 1))
-    return sympy.simplify(_monomial(c, c.prefix) * sol[0])
+    tail = sol[0] - 1 if c.strict else sol[0]
+    return sympy.simplify(_monomial(c, c.prefix) * tail)
 
 
 class BruteVer(_Settings, VerificationStrategy):
@@ -803,6 +864,7 @@ class PackVer(_Settings, VerificationStrategy):
 
 STRATEGY_CLASSES = {
     "Expand": Expand,
+    "SplitAtom": SplitAtom,
     "Peel": Peel,
     "Reduce": Reduce,
     "StatXf": StatXf,
